@@ -45,27 +45,27 @@ theorem Reach.symm {adj : α → α → Bool} {U : List α} (hs : ∀ x y, adj x
 
 /-! ## the swap-remove sweep -/
 
-theorem sweep_spec (p : α → Bool) :
+theorem sweepAux_spec (p : α → Bool) :
     ∀ (n : Nat) (l : List α), l.length ≤ n →
-      (∀ a, a ∈ (sweep p l).1 ↔ a ∈ l ∧ p a = false) ∧
-      (∀ a, a ∈ (sweep p l).2 ↔ a ∈ l ∧ p a = true) ∧
-      (sweep p l).1.length + (sweep p l).2.length = l.length := by
+      (∀ a, a ∈ (sweepAux p n l).1 ↔ a ∈ l ∧ p a = false) ∧
+      (∀ a, a ∈ (sweepAux p n l).2 ↔ a ∈ l ∧ p a = true) ∧
+      (sweepAux p n l).1.length + (sweepAux p n l).2.length = l.length := by
   intro n
   induction n with
   | zero =>
     intro l hl
     have : l = [] := List.eq_nil_of_length_eq_zero (Nat.le_zero.mp hl)
     subst this
-    simp [sweep]
+    simp [sweepAux]
   | succ n ih =>
     intro l hl
     cases l with
-    | nil => simp [sweep]
+    | nil => simp [sweepAux]
     | cons x rest =>
       by_cases hp : p x = true
       · cases rest with
         | nil =>
-          simp only [sweep, hp, if_true]
+          simp only [sweepAux, hp, if_true]
           refine ⟨fun a => ?_, fun a => ?_, by simp⟩
           · simp; intro h; subst h; simp [hp]
           · simp; intro h; subst h; exact hp
@@ -84,8 +84,7 @@ theorem sweep_spec (p : α → Bool) :
             · rintro (h | h)
               · exact Or.inr h
               · exact Or.inl h
-          rw [sweep]
-          simp only [hp, if_true]
+          simp only [sweepAux, hp, if_true]
           refine ⟨fun y => ?_, fun y => ?_, ?_⟩
           · rw [h1 y, hmem y]
             constructor
@@ -108,9 +107,7 @@ theorem sweep_spec (p : α → Bool) :
       · have hp' : p x = false := by simpa using hp
         have hlen : rest.length ≤ n := by simp at hl; omega
         obtain ⟨h1, h2, h3⟩ := ih _ hlen
-        have hsw : sweep p (x :: rest) = (x :: (sweep p rest).1, (sweep p rest).2) := by
-          cases rest <;> simp [sweep, hp']
-        rw [hsw]
+        simp only [sweepAux, hp', Bool.false_eq_true, if_false]
         refine ⟨fun y => ?_, fun y => ?_, ?_⟩
         · simp only [List.mem_cons, h1 y]
           constructor
@@ -130,14 +127,14 @@ theorem sweep_spec (p : α → Bool) :
         · simp only [List.length_cons]; omega
 
 theorem mem_sweep_fst (p : α → Bool) (l : List α) (a : α) :
-    a ∈ (sweep p l).1 ↔ a ∈ l ∧ p a = false := (sweep_spec p l.length l (Nat.le_refl _)).1 a
+    a ∈ (sweep p l).1 ↔ a ∈ l ∧ p a = false := (sweepAux_spec p l.length l (Nat.le_refl _)).1 a
 
 theorem mem_sweep_snd (p : α → Bool) (l : List α) (a : α) :
-    a ∈ (sweep p l).2 ↔ a ∈ l ∧ p a = true := (sweep_spec p l.length l (Nat.le_refl _)).2.1 a
+    a ∈ (sweep p l).2 ↔ a ∈ l ∧ p a = true := (sweepAux_spec p l.length l (Nat.le_refl _)).2.1 a
 
 theorem length_sweep (p : α → Bool) (l : List α) :
     (sweep p l).1.length + (sweep p l).2.length = l.length :=
-  (sweep_spec p l.length l (Nat.le_refl _)).2.2
+  (sweepAux_spec p l.length l (Nat.le_refl _)).2.2
 
 /-! ## one expansion step preserves "not reachable from the work list" -/
 
